@@ -205,6 +205,8 @@ class WindowedBinaryAUROC(Metric[torch.Tensor]):
         Args:
             metrics (Iterable[Metric]): metric instances whose states are to be merged.
         """
+        # `metrics` may be a one-shot iterable; it is walked more than once below
+        metrics = list(metrics)
 
         merge_max_num_samples = self.max_num_samples
         for metric in metrics:
